@@ -1125,6 +1125,10 @@ class Envelope:
         if self.state is None:
             return self.fock.resize(new_dimensions)
 
+        # trace_out below puts the fock space first, the state must be reshaped
+        # in the same order
+        self.reorder(self.fock)
+
         reshape_shape = [-1, -1]
         assert isinstance(self.fock.dimensions, int)
         assert isinstance(self.fock.index, int)
